@@ -107,3 +107,17 @@ package qbft
 //@ requires duty.Slot < 1<<62 && 0 <= duty.Type && duty.Type < 64 && 1 <= round && round < 1<<61 && 1 <= nodes && nodes <= 1<<31
 //@ ensures 0 <= result && result < int64(nodes)
 //@ ensures result == (int64(duty.Slot) + int64(duty.Type) + round) % int64(nodes)
+
+// ---- sending side: what the core asks to broadcast is what is signed and put on the wire -------------------
+//@ pure core.DutyToProto Msg.Msg
+
+// createMsg signs a message that carries exactly the requested type, duty, sender, rounds and value hashes, and
+// attaches the protobuf form of every justification in order.
+//@ func createMsg
+//@ props C05 C02 C03
+//@ callreq signMsg: a1.Type == int64(typ) && a1.Duty == core.DutyToProto(duty) && a1.PeerIdx == peerIdx && a1.Round == round && a1.PreparedRound == pr && a2 == privkey
+//@ callreq signMsg: a1.ValueHash == vHash[:] && a1.PreparedValueHash == pvHash[:]
+//@ callreq newMsg: a3 == values && len(a2) == len(justification) && forall(k, 0, len(justification), a2[k] == justification[k].(Msg).Msg())
+//@ ensures r1 == nil ==> ncalls(signMsg) == 1 && ncalls(newMsg) == 1
+//@ loop 1 invariant len(justMsgs) == $i && forall(k, 0, $i, justMsgs[k] == justification[k].(Msg).Msg()) && ncalls(signMsg) == 1 && ncalls(newMsg) == 0
+//@ canary r1 != nil
